@@ -518,6 +518,9 @@ package keeper
 //@ ensures [no-deps] E == old(E) && X == old(X)
 
 //@ func Keeper.getValSet pure
+//@ loop 1 invariant [collect] len(validators) == iterator.pos && 0 <= iterator.pos && iterator.pos <= iterator.n
+//@ loop 1 invariant [pure] S == old(S) && E == old(E) && X == old(X)
+//@ ensures [one-per-record] err == nil ==> len(validators) == iterator.n
 //@ ensures [frame] S == old(S) && E == old(E) && X == old(X)
 
 // ---------------------------------------------------------------- computing and queueing validator-set updates (C01, C02, C03, C08, C11, C12)
